@@ -214,6 +214,9 @@ def run_read(vec, rate, width, eid, workdir):
             aligned = len(b) % width == 0
             ret = [0] * (len(b) // width)
         elif op == "extractSubwav":
+            # the source file of this worker is rewritten under ONE path for all its calls: what a path held earlier must not matter
+            os.remove(fn) if os.path.exists(fn) else None
+            fn = os.path.join(workdir, "src-%d.wav" % os.getpid())
             write_wav(fn, vec["pre"], rate, codec)
             out = fn + ".out.wav"
             try:
